@@ -713,7 +713,12 @@ func main() {
 	sb.WriteString("(* GENERATED by /verif/gen from the current sources of the repository. Do not edit. *)\n")
 	sb.WriteString("From Coq Require Import String List.\nImport ListNotations.\nOpen Scope string_scope.\n\n")
 	sb.WriteString("(* (Go field, JSON name, Go type, omitempty) *)\nDefinition field := (string * string * string * bool)%type.\n\n")
+	seenStruct := map[string]bool{} // several spec.d files may ask for the same struct
 	for _, r := range spec.Structs {
+		if seenStruct[r.Dir+"|"+r.Name] {
+			continue
+		}
+		seenStruct[r.Dir+"|"+r.Name] = true
 		p, err := loadPkg(*repo, r.Dir)
 		if err != nil {
 			continue
